@@ -9,6 +9,7 @@ import (
 	"context"
 	"encoding/json"
 	"fmt"
+	"io"
 	logslog "log/slog"
 	"os"
 	"os/exec"
@@ -227,8 +228,13 @@ func c12setup(cas c12case, recFile string) (slog.Logger, *os.File) {
 		fmt.Println("INFRA cannot open record file:", err)
 		os.Exit(97)
 	}
+	var dest io.Writer = f
+	if cas.NArgs == 2 && cas.Repeat <= 1 {
+		// a third of the cases log to the library's own file writer
+		dest = slog.NewFileWriter(recFile)
+	}
 	mk := func(l slog.Logger) slog.Logger {
-		l.SetWriter(f).SetErrorWriter(f)
+		l.SetWriter(dest).SetErrorWriter(dest)
 		l.SetLevel(slog.Level(cas.Level)) // (Debug/Trace switch the process-wide modes on - deliberately left on)
 		switch cas.Format {
 		case "json":
@@ -287,6 +293,15 @@ func init() {
 			for _, lv := range []int{-20, -7, 1, 5, 9, 12, 15, 18, 19, 20, 32, 100} {
 				fmt.Printf("BEGIN Log(odd level) %d\n", lv)
 				l.Log(context.Background(), logslog.Level(lv), fmt.Sprintf("odd %d", lv))
+				n++
+			}
+			// custom levels that are treated as Panic / Fatal for gating are still "other severities": they never terminate
+			_ = slog.RegisterLevel(slog.Level(60), "c12likepanic", slog.RegWithTreatedAsLevel(slog.PanicLevel))
+			_ = slog.RegisterLevel(slog.Level(61), "c12likefatal", slog.RegWithTreatedAsLevel(slog.FatalLevel), slog.RegWithPrintToErrorDevice(true))
+			for _, lv := range []slog.Level{60, 61, 77} {
+				fmt.Printf("BEGIN custom level %d\n", int(lv))
+				l.LogAttrs(context.Background(), lv, fmt.Sprintf("custom %d", int(lv)), "k", 1)
+				l.Logit(context.Background(), lv, fmt.Sprintf("custom %d", int(lv)))
 				n++
 			}
 			fmt.Printf("DONE %d\n", n)
